@@ -6,7 +6,19 @@
     the level duplication that implements weights and MinimumTrials, [M] (the
     number of crossing rows), the extra preamble row when a transition is
     crossed, the [maximum_trials] truncation of [add_answer], hence the length
-    of every returned sequence; and which constraints reach the core (none).
+    of every returned sequence; and which constraints reach the core (no constraint
+    object is passed: the core gets the design and the crossing only, so a design
+    may pass only if each of its constraints is realised by that machinery).
+
+    History: until commit cac238c of /repo the isinstance chain of the support test
+    listed AtMostKInARow / AtLeastKInARow / ExactlyK / Exclude / Pin only, so
+    ExactlyKInARow, ExactlyKMultipleInARow, Sequential and LatinSquare passed and
+    were silently ignored (findings smgen:ignored:<Kind>, witnesses replayed on the
+    real code).  cac238c added the four classes to the chain; [refused_kind]
+    follows the repaired chain.  Still outside the chain: the internal Sustain
+    constraint, which Nest writes; a Nest whose inner block has no crossing has one
+    crossing and passes ([p_ignored] then lists Sustain; open finding
+    smgen:length:Nest, SMGateProofs.witness_sustain).
 
     PARTIAL by construction: the 1250-line randomised backtracker
     [sm_backtrack_random] with its module-global state and the
@@ -38,16 +50,40 @@ Definition ckind_eqb (a b : ckind) : bool :=
   | _, _ => false
   end.
 
-(** the isinstance test of [SMGen.sample] *)
+(** the isinstance test of [SMGen.sample] (the chain as of cac238c):
+      isinstance(c, AtMostKInARow) or isinstance(c, AtLeastKInARow) or isinstance(c, ExactlyK)
+      or isinstance(c, ExactlyKInARow) or isinstance(c, ExactlyKMultipleInARow)
+      or isinstance(c, LatinSquare) or isinstance(c, Sequential)
+      or isinstance(c, Exclude) or isinstance(c, Pin)
+    evaluated per entry of [block.constraints] in order; the message names [type(c).__name__] *)
 Definition refused_kind (k : ckind) : bool :=
-  match k with KAtMost | KAtLeast | KExactlyK | KExclude | KPin => true | _ => false end.
+  match k with
+  | KAtMost | KAtLeast | KExactlyK
+  | KExactlyKInARow | KExactlyKMultiple
+  | KLatin | KSequential
+  | KExclude | KPin => true
+  | _ => false
+  end.
 
-(** constraints that restrict the admissible sequences (the others are realised by the
-    crossing / derivation machinery of the core itself or only fix the trial count) *)
+(** the constraint classes a user writes to restrict the admissible level sequences (all of
+    constraint.py except the ones classified by [realised_kind] and the internal Sustain) *)
 Definition user_kind (k : ckind) : bool :=
   match k with
   | KAtMost | KAtLeast | KExactlyK | KExclude | KPin
-  | KExactlyKInARow | KExactlyKMultiple | KLatin | KSequential | KContinuous => true
+  | KExactlyKInARow | KExactlyKMultiple | KLatin | KSequential => true
+  | _ => false
+  end.
+
+(** classes whose effect does not depend on a constraint object being handed to the core:
+    Cross = the crossing itself ([define_cross]); Consistency = one level per factor and trial
+    (the shape of the returned columns); Derivation = the derived levels, computed by the core
+    from the window predicates of the design; Reify restricts nothing; MinimumTrials = the trial
+    count, implemented by the level duplication [scale_one] and [maximum_trials] below;
+    ContinuousConstraint restricts the continuous samples only, which main.synthesize_trials
+    draws with block.sample_continuous after any sampler, SMGen included *)
+Definition realised_kind (k : ckind) : bool :=
+  match k with
+  | KCross | KConsistency | KDerivation | KReify | KMinimumTrials | KContinuous => true
   | _ => false
   end.
 
@@ -91,7 +127,7 @@ Record params := {
   p_pre : nat;                      (* 1 if a transition is in the crossing (the preamble row) *)
   p_length : nat;                   (* length of every returned column *)
   p_handed : list ckind;            (* constraints passed to the core *)
-  p_ignored : list ckind            (* user constraints neither refused nor passed *)
+  p_ignored : list ckind            (* constraints neither refused, nor passed, nor realised by the core's own machinery *)
 }.
 
 Inductive outcome := Refuse (r : reason) | Crash (c : crash) | Accept (p : params).
@@ -195,12 +231,12 @@ Definition gate (s : summary) : outcome :=
     let pre := if existsb (is_tr_at s) (sm_crossing s) then 1 else 0 in
     let len := match maxi with Some t => Nat.min (m + pre) t | None => m + pre end in
     Accept {| p_maximum := maxi; p_levels := counts; p_M := m; p_pre := pre; p_length := len;
-              p_handed := []; p_ignored := filter user_kind (sm_constraints s) |}
+              p_handed := []; p_ignored := filter (fun k => negb (realised_kind k)) (sm_constraints s) |}
   end end end end end end.
 
 (** a constraint kind that is in the design, passes the gate and is not handed to the core *)
 Definition ignored_by_gate (s : summary) (k : ckind) : bool :=
   match gate s with
-  | Accept p => existsb (ckind_eqb k) (sm_constraints s) && user_kind k && negb (existsb (ckind_eqb k) (p_handed p))
+  | Accept p => existsb (ckind_eqb k) (sm_constraints s) && negb (realised_kind k) && negb (existsb (ckind_eqb k) (p_handed p))
   | _ => false
   end.
